@@ -5,6 +5,7 @@ mod case;
 mod ring;
 mod uni;
 mod unilife;
+mod unistress;
 mod pool;
 mod stack;
 mod zcq;
@@ -74,6 +75,7 @@ fn main() {
             "fsring" => ring::run_fs(&case),
             "uni"  => uni::run(&case),
             "unilife" => unilife::run(&case),
+            "unistress" => unistress::run(&case),
             "pool" => pool::run(&case),
             "stack" => stack::run(&case),
             "zcq" => zcq::run(&case),
